@@ -38,8 +38,8 @@ PARAMS = ['a', 'b', 'c', 'd']
 
 PLAN = {
     # (alphabet, n) lambda spaces; generator shell spaces; seeded random larger trees (count, sizes)
-    'quick': {'lambdas': [('bool', 3), ('wide', 2)], 'gens': [('gen', 2)], 'random': None, 'parts': 4},
-    'thorough': {'lambdas': [('bool4', 3), ('bool', 4), ('cond', 5), ('boolc', 2), ('wide', 2)], 'gens': [('gen', 2)],
+    'quick': {'lambdas': [('bool', 3), ('wide2', 2)], 'gens': [('gen', 2)], 'random': None, 'parts': 4},
+    'thorough': {'lambdas': [('bool4', 3), ('cond', 5), ('boolc', 2), ('wide', 2)], 'gens': [('gen', 2), ('gencond', 3)],
                  'random': {'lambdas': [('wide', 1500, (3, 7)), ('bool', 1500, (5, 9))], 'gens': [('gen', 1500, (3, 8))]}, 'parts': 8},
 }
 
@@ -336,18 +336,18 @@ def check_lambda_row(ctx, st, r, names, forms, space):
 def check_gen_row(ctx, st, r, names, forms, space):
     g = r['g']
     src = px.check_renderers(g)
-    envs = envs_for(names, len(names))
     node = px.to_ast(g)
     # self-check of the model against CPython
-    selfcheck('Eval (element)', src, table_of_node(node.elt, envs), r['elt'], 'assignments of %s' % names)
+    selfcheck('Eval (element)', src, table_of_node(node.elt, envs_for(names, r['elt']['k'])), r['elt']['tab'], 'assignments of %s' % names)
     for ci, comp in enumerate(node.generators):
-        selfcheck('CondVal (clause %d)' % (ci + 1), src, filter_table(comp.ifs, envs), r['conds'][ci], 'assignments of %s' % names)
+        selfcheck('CondVal (clause %d)' % (ci + 1), src, filter_table(comp.ifs, envs_for(names, r['conds'][ci]['k'])), r['conds'][ci]['tab'],
+                  'assignments of %s' % names)
     code0 = compile(src, '<c03>', 'eval')
     for ri, env in enumerate(RUN_ENVS):
         got = run_generator(code0, env)
         if not px.same(got, r['runs'][ri]):
             raise MachineryError('PyExpr.EvalGen disagrees with CPython on %s (run %d): spec %r, CPython %r' % (src, ri, r['runs'][ri], got))
-    st.selfcheck_points += len(r['elt']) * (1 + len(node.generators)) + len(RUN_ENVS)
+    st.selfcheck_points += len(r['elt']['tab']) + sum(len(x['tab']) for x in r['conds']) + len(RUN_ENVS)
     st.c['generators'] += 1
     feats = None
     seen = {}
@@ -366,7 +366,7 @@ def check_gen_row(ctx, st, r, names, forms, space):
             continue
         key = safe_dump(tree)
         if key not in seen:
-            seen[key] = compare_generator(st, tree, node, r, envs, names)
+            seen[key] = compare_generator(st, tree, node, r, names)
         why = seen[key]
         if why is None:
             st.c['gen_ok'] += 1
@@ -380,7 +380,7 @@ def check_gen_row(ctx, st, r, names, forms, space):
                      {'kind': 'gen', 'form': form, 'tree': g, 'names': list(names), 'space': space})
 
 
-def compare_generator(st, tree, node, r, envs, names):
+def compare_generator(st, tree, node, r, names):
     """None if the decompiled generator has the structure and meaning of the source, else a description."""
     if not isinstance(tree, ast.GeneratorExp) or not all(isinstance(c, ast.comprehension) for c in tree.generators):
         return 'the result is not a generator expression with comprehension clauses'
@@ -394,22 +394,31 @@ def compare_generator(st, tree, node, r, envs, names):
                 return 'the first iterable is not the generator argument'
         elif safe_dump(c1.iter) != safe_dump(c2.iter):
             return 'iterable of clause %d differs: %s' % (ci + 1, safe_unparse(c1.iter))
-    n = sum(1 for x in r['elt'] if x != 'U')
-    res = table_of_node(tree.elt, envs)
-    st.points += n
-    i = first_diff(res, r['elt'])
+    # the decompiled pieces may mention more names than the source pieces: tabulate over all names and project
+    allenvs = envs_for(names, len(names))
+
+    def expected(piece):
+        k, tab = piece['k'], piece['tab']
+        if k == len(names):
+            return tab
+        step = len(allenvs) // len(tab)
+        return [tab[i // step] for i in range(len(allenvs))]
+    exp = expected(r['elt'])
+    res = table_of_node(tree.elt, allenvs)
+    st.points += sum(1 for x in r['elt']['tab'] if x != 'U')
+    i = first_diff(res, exp)
     if i is not None:
-        env = {k: envs[i][k] for k in names}
-        return 'element: with %s the source gives %s, the decompiled tree %s' % (
-            env, px.show(r['elt'][i]), res if isinstance(res, str) else px.show(res[i]))
+        env = {k: allenvs[i][k] for k in names}
+        return 'element: with %s the source gives %s, the decompiled tree %s' % (env, px.show(exp[i]), res if isinstance(res, str) else px.show(res[i]))
     for ci, comp in enumerate(tree.generators):
-        res = filter_table(comp.ifs, envs)
-        st.points += n
-        i = first_diff(res, r['conds'][ci])
+        exp = expected(r['conds'][ci])
+        res = filter_table(comp.ifs, allenvs)
+        st.points += sum(1 for x in r['conds'][ci]['tab'] if x != 'U')
+        i = first_diff(res, exp)
         if i is not None:
-            env = {k: envs[i][k] for k in names}
+            env = {k: allenvs[i][k] for k in names}
             return 'filter of clause %d: with %s the source filter is %s, the decompiled one %s' % (
-                ci + 1, env, px.show(r['conds'][ci][i]), res if isinstance(res, str) else px.show(res[i]))
+                ci + 1, env, px.show(exp[i]), res if isinstance(res, str) else px.show(res[i]))
     whole = copy.deepcopy(tree)
     whole.generators[0].iter = ast.Name(id='T', ctx=ast.Load())
     try:
@@ -471,7 +480,7 @@ def run(ctx):
     for alpha, n in plan['lambdas']:
         A = px.alphabet(ctx.scratch, alpha, st.tlc)
         before = st.c['trees']
-        keep = [] if alpha == 'wide' else None
+        keep = [] if alpha.startswith('wide') else None
         for rows in px.run_jobs(ctx.scratch, px.exprs_jobs(alpha, n, VALS, parts), st.tlc, workers=parts):
             for r in rows:
                 check_lambda_row(ctx, st, r, A['names'], lambda_forms, '%s/%d' % (alpha, n))
